@@ -14,7 +14,7 @@ import numpy as np
 
 import core
 
-PROOF_MODULES = ["UnytProofs.C08"]
+PROOF_MODULES = ["UnytProofs.C08", "UnytProofs.C08Tab", "UnytProofs.C08Tab2"]
 
 # --------------------------------------------------------------------------------------
 # the independent reference (also embedded verbatim in every replay file)
@@ -287,7 +287,7 @@ def run(tier, seed):
 
     # ---- binary forms over all ordered pairs -----------------------------------------------------
     special = [(1.0, 50.0)]  # the witness of C08_add_counterexample rides along on every pair
-    n_rand = 1 if tier == "quick" else 1
+    n_rand = 1 if tier == "quick" else 3
     npairs = 0
     for u0 in units:
         for u1 in units:
@@ -309,7 +309,7 @@ def run(tier, seed):
                         res = run_form(code, a, b)
                         chk.case(("bin", op, u0.name, u1.name, fname, okind),
                                  {"op": op, "form": fname, "u0": u0.spelling, "u1": u1.spelling, "x0": xs0, "x1": xs1}
-                                 if rng.random() < 0.0005 else None)
+                                 if (npairs * 7 + len(fname)) % 97 == 0 else None)
                         src = guarded(f"a = {mk_src(okind, xs0, u0.spelling)}\nb = {mk_src(okind, xs1, u1.spelling)}\n")
                         if res[0] == "ok":
                             r = res[1]
@@ -641,7 +641,7 @@ def compare(chk, line, exp, rep):
                     continue
                 ms = core.b2f(rep[1])
                 for x0, x1, v in zip(xs0, xs1, vs):
-                    raw = x0 * x1 if kind == "mul" else (np.floor(x0 / x1) if fname == "floor" else x0 / x1)
+                    raw = x0 * x1 if kind == "mul" else (float(np.floor_divide(x0, x1)) if fname == "floor" else x0 / x1)
                     if not fclose(v * bv, raw * ms, abs(raw * ms)):
                         chk.disagree("c08." + kind, f"{x0} [{u0.name}] {kind} {x1} [{u1.name}] [{fname}]: unyt {v} x {bv}, model {raw} x {ms}")
                         break
